@@ -22,14 +22,14 @@ for p, mods, corr in (
     ("C03", ["Vet.Props.C03"], ["corr.wire", "corr.depgraph", "corr.mapper", "corr.requirements"]),
     ("C04", ["Vet.Props.C04", "Vet.Props.Build", "Vet.Props.C04Keep"], ["corr.wire", "corr.mapper", "corr.auditgraph", "corr.resolve", "corr.update"]),
     ("C06", ["Vet.Props.Build", "Vet.Props.C15"], ["corr.wire", "corr.mapper", "corr.auditgraph"]),
-    ("C12", ["Vet.Props.Resolve", "Vet.Props.C12Prune", "Vet.Props.Commands"], ["corr.wire", "corr.mapper", "corr.auditgraph", "corr.search", "corr.resolve", "corr.update", "corr.cmd.wiring"]),
+    ("C12", ["Vet.Props.Resolve", "Vet.Props.C12Prune", "Vet.Props.Commands", "Vet.Props.WFCorollaries"], ["corr.wire", "corr.mapper", "corr.auditgraph", "corr.search", "corr.resolve", "corr.update", "corr.cmd.wiring"]),
 ):
     PROPS[p] = {"lean_modules": mods, "corr": corr, "trusted": CORE_TRUST, "assumptions": CORE_ASSUME,
                 "explanation": "Theorems about the model of src/resolver.rs; correspondence of DepGraph::new, resolve_requirements, AuditGraph::build (edge dump), search (three modes) and resolve with the model on generated worlds; specification-level oracles (demand fixpoint, record-level reachability, conflict test) evaluated on the real resolver's output."}
 
 UPD_TRUST = CORE_TRUST + ["final sort() of the rewritten tables is not modelled (outputs compared as sets of kept records)",
                           "command wiring (acquire, commit) exercised on the real code only"]
-for p, mods in (("C11", ["Vet.Props.C11", "Vet.Props.Commands", "Vet.Props.Renew"]), ("C09", ["Vet.Props.C10", "Vet.Props.Commands"]), ("C10", ["Vet.Props.C10", "Vet.Props.C10Regen", "Vet.Props.Commands", "Vet.Props.CommandsAsk"]), ("C13", ["Vet.Props.C13", "Vet.Props.C13Twice"])):
+for p, mods in (("C11", ["Vet.Props.C11", "Vet.Props.Commands", "Vet.Props.Renew"]), ("C09", ["Vet.Props.C10", "Vet.Props.Commands", "Vet.Props.WFCorollaries"]), ("C10", ["Vet.Props.C10", "Vet.Props.C10Regen", "Vet.Props.Commands", "Vet.Props.CommandsAsk", "Vet.Props.WFCorollaries"]), ("C13", ["Vet.Props.C13", "Vet.Props.C13Twice"])):
     PROPS[p] = {"lean_modules": mods, "corr": ["corr.wire", "corr.update"] + (["corr.cmd.wiring", "corr.cmd.ask", "corr.cmd.renew"] if p in ("C10", "C11") else []), "trusted": UPD_TRUST, "assumptions": CORE_ASSUME,
                 "shards": {"quick": 8, "thorough": 16},
                 "explanation": "Theorems about the model of get_store_updates; correspondence of get_store_updates under six update modes per world; oracles on the real output (function layer) and on the three store files around real commands run on disk against a mock network (command layer)."}
